@@ -15,7 +15,7 @@
 # does not emit them unless these switches are on (development: to see what a fix of that limitation would have to pass)
 DECAY_SUBOBJECT = False
 COMMUTED_INDEX = False
-# genuine defect of /repo 166dfacf (reported, witness corpus/c07_pending_addr_of_array_arith.c, no patch yet): `&A` of an array A is typed like the decayed A (pointer to
+# genuine defect of /repo 166dfacf (reported, witness corpus/c07_prog_addr_of_array_arith.c, no patch yet): `&A` of an array A is typed like the decayed A (pointer to
 # the ELEMENT), so `&A + 1` / `&g[1] - 1` move by one element instead of one array, at compile time and at run time alike.
 # While it is open the generator does not add a non-zero constant to the address of an array.
 ADDR_OF_ARRAY_ARITH = False
